@@ -852,3 +852,21 @@ func ClosedExternally(fd int) {
 		r.Closes++
 	}
 }
+
+// HasWriteInterest reports whether the last successful epoll_ctl ADD/MOD for fd asked for EPOLLOUT
+// (plain reads of the ledger: usable inside scheduler predicates).
+//
+//go:norace
+func (l *Ledger) HasWriteInterest(fd int) bool {
+	for i := len(l.Ctl) - 1; i >= 0; i-- {
+		c := l.Ctl[i]
+		if c.Fd != fd || c.Err != 0 {
+			continue
+		}
+		if c.Op == syscall.EPOLL_CTL_DEL {
+			return false
+		}
+		return c.Events&syscall.EPOLLOUT != 0
+	}
+	return false
+}
